@@ -111,6 +111,16 @@ CHECKS = {
         "~100 listed known findings (degenerate sizes, fixed/flow modes of Overlay/Padding/LineBox, empty containers).",
         "DESIGN.md §4 C01",
     ),
+    "C09": (
+        MC,
+        "bounded-exhaustive enumeration of typed trees with self-painting recording leaves x the first fitting sizes of a size lattice (fit precondition verified on the canvas composition tree) x every cell: press and move_cursor_to_coords on every cell, judged against what the rendered canvas shows at that cell",
+        "51 container/decoration constructors (Pile, Columns, Frame parts, Filler, Padding, Overlay box/flow, BoxAdapter, LineBox, AttrMap, WidgetPlaceholder, GridFlow, ListBox incl. "
+        "states after set_focus_valign / body.set_focus / deletion) over 9 leaf kinds (painting probes, row-/column-refusing probes, unselectable probe, multi-line Edit, Edit with a "
+        "two-row caption, SelectableIcon) and every constructor over every constructor for 3/6 leaves; 3/6 fitting sizes per tree and mode; every cell: cursor-agrees, hit, move-iff, move-row.",
+        "Trusted: mc/probe.py painting (cross-checked against the bounding boxes); fit = every leaf rendered once, fully visible, no canvas trimmed on the way, LineBox >= 3x3; "
+        "trees whose path contains a widget without move_cursor_to_coords (Frame, Overlay, ListBox) are outside the quantifier for the move clauses.",
+        "DESIGN.md §4 C09",
+    ),
 }
 
 PENDING_REASON = "check not built yet in this round (see DESIGN.md Appendix B build order); no claim is made"
